@@ -167,7 +167,15 @@ pub fn default_value(recvs: &[Recv], r: &Recv) -> Value {
             }
         }
         Shape::Enum(vs) => enum_zero(recvs, r, &vs[0]),
+        Shape::Unit => struct_value(r, |_, f| field_zero(recvs, f)),
+        Shape::Newtype(t) => newtype_value(r, zero(recvs, t)),
     }
+}
+
+pub fn newtype_value(r: &Recv, inner: Value) -> Value {
+    let mut outer = serde_json::Map::new();
+    outer.insert(r.name(), inner);
+    Value::Object(outer)
 }
 
 pub fn tagged_struct(recvs: &[Recv], r: &Recv, tag: Tag) -> Value {
